@@ -54,6 +54,7 @@ func (search *Search) StartIterativeDeepening(startTime, endTime time.Time, maxD
 		pprof.StartCPUProfile(ProfileFile)
 		defer stopProfiling()
 	}
+	verifSync(1, 0, 0)
 	var bestLine *Line = &Line{}
 	search.interrupted = false
 	evaluatedNodes = 0
@@ -65,6 +66,7 @@ func (search *Search) StartIterativeDeepening(startTime, endTime time.Time, maxD
 	// In extreme case engine would loose on time rather than crash trying to print out nil/uninitialized search result.
 	bestScore, oneLegalMove = search.startAlphaBeta(posGen, 1, &search.bestLineAtDepth[0],
 		bestLine, startTime, endTime)
+	verifSync(3, 1, 0)
 	copyBestLine(bestLine, search.bestLineAtDepth[0])
 
 	// no legal move at the root (mate or stalemate) leaves the line empty - deeper iterations cannot change that
@@ -75,6 +77,7 @@ func (search *Search) StartIterativeDeepening(startTime, endTime time.Time, maxD
 			var scoreAtDepth int
 			scoreAtDepth, oneLegalMove = search.startAlphaBeta(posGen, currDepth, &search.bestLineAtDepth[0],
 				bestLine, startTime, endTime)
+			verifSync(3, currDepth, 0)
 
 			if time.Now().After(endTime) {
 				break
@@ -98,14 +101,17 @@ func (search *Search) StartIterativeDeepening(startTime, endTime time.Time, maxD
 			}
 		}
 	}
+	verifSync(4, 0, 0)
 	search.running.Store(false)
 	if rootIsTerminal {
 		// UCI null move: there is nothing to play
 		fmt.Println("bestmove 0000")
+		verifSync(5, 0, 0)
 		return
 	}
 	printInfo(bestScore, depthCompleted, bestLine.moves, time.Since(startTime), "")
 	fmt.Println("bestmove", bestLine.moves[0])
+	verifSync(5, 0, 0)
 }
 
 func copyBestLine(bestLineDst *Line, bestLineSrc []Move) {
@@ -224,6 +230,7 @@ func (search *Search) startAlphaBeta(aPosGen *Generator, targetDepth int, currBe
 			maybePrintNewPvInfo(alpha, targetDepth, search.getBestLine(), time.Duration(time.Since(starttime)), "")
 			// printInfo( alpha, targetDepth, search.getBestLine(), time.Duration(time.Since(starttime)), "in startAB:")
 		}
+		verifSync(2, targetDepth, aPosGen.firstMoveIdx)
 		if search.interrupted || time.Now().After(endtime) {
 			break
 		}
